@@ -16,7 +16,7 @@ KINDS = {
 SCENARIOS = ["basic", "wiring", "snapshot", "leave", "lagging", "lagging-leave"]
 
 
-def run_scenarios(ctx, repeat):
+def run_scenarios(ctx, repeat, scenarios=None):
     node = ctx.go_build("cmd/anndbnode", "anndbnode")
     clus = ctx.go_build("cmd/clus", "clus")
 
@@ -33,7 +33,7 @@ def run_scenarios(ctx, repeat):
             raise vlib.NoVerdict("cluster driver did not finish scenario %s" % sc)
         subprocess.run(["rm", "-rf", work])
         return sc, lines
-    jobs = [(i, sc) for i, sc in enumerate(SCENARIOS * repeat)]
+    jobs = [(i, sc) for i, sc in enumerate((scenarios or SCENARIOS) * repeat)]
     with ThreadPoolExecutor(max_workers=6) as ex:
         res = list(ex.map(one, jobs))
     trace = ctx.path("cluster.ndjson")
